@@ -42,3 +42,19 @@ Definition mint_ok_for (p : N) (c : mint_case) : bool :=
     ((negb (staking_ok (mt_pre c)) || staking_ok (mt_post c)) && mt_ok c)
     (negb (escrow_ok (mt_pre c)) || escrow_ok (mt_post c)).
 Definition mint_violations_for (p : N) (cs : list mint_case) : list N := idx_filter (fun c => negb (mint_ok_for p c)) 0 cs.
+
+(* ---- certificate-result transactions of a nested committee (slashes of double- and non-signers, order lock / reset / close
+   instructions, reward percents) applied through the real ApplyTransactions: scan before and after *)
+Record cr_case := mkCr { cr_pre : lstate; cr_ok : bool; cr_post : lstate }.
+Definition cr_ok_for (p : N) (c : cr_case) : bool :=
+  sel p
+    (* C04: conservation kept; certificate results create nothing (slashes burn, escrow moves) *)
+    ((negb (conservation_ok (cr_pre c)) || conservation_ok (cr_post c)) &&
+     (s_total (l_supply (cr_post c)) <=? s_total (l_supply (cr_pre c))))
+    (* C07: a failed transaction leaves no trace *)
+    (cr_ok c || lstate_eqb (cr_pre c) (cr_post c))
+    (negb (staking_ok (cr_pre c)) || staking_ok (cr_post c))
+    (* C20: the escrow pool of every chain still equals the sum of its open sell orders *)
+    (negb (escrow_ok (cr_pre c)) || escrow_ok (cr_post c)).
+Definition cr_violations_for (p : N) (cs : list cr_case) : list N := idx_filter (fun c => negb (cr_ok_for p c)) 0 cs.
+Definition cr_mismatches (cs : list cr_case) : list N := [].
